@@ -6,6 +6,7 @@ import (
 	"runtime/debug"
 	"sort"
 	"strings"
+	"sync/atomic"
 	"time"
 	"unicode/utf8"
 
@@ -41,6 +42,7 @@ func classify(limit time.Duration, f func() error) string {
 		}
 		return r
 	case <-time.After(limit):
+		atomic.AddInt32(&stuck, 1)
 		return "timeout"
 	}
 }
